@@ -91,6 +91,8 @@ def finish(prop, tier, results, explanation, assumptions, trusted_base, t0, leve
         for o in lst[:3]:
             samples.append(o.as_dict())
     viol_dir = os.path.join(VERIF, 'evidence', 'violations')
+    if os.environ.get('NK_NO_EVIDENCE'):
+        viol_dir = os.path.join(VERIF, '.work', 'violations')
     replay_paths = []
     if unlisted:
         os.makedirs(viol_dir, exist_ok=True)
@@ -130,9 +132,10 @@ def finish(prop, tier, results, explanation, assumptions, trusted_base, t0, leve
         ev['coverage'].update(extra)
     if broken:
         ev['coverage']['analysis_broken'] = broken
-    os.makedirs(os.path.join(VERIF, 'evidence'), exist_ok=True)
-    with open(os.path.join(VERIF, 'evidence', prop + '.json'), 'w') as f:
-        json.dump(ev, f, indent=1)
+    if not os.environ.get('NK_NO_EVIDENCE'):
+        os.makedirs(os.path.join(VERIF, 'evidence'), exist_ok=True)
+        with open(os.path.join(VERIF, 'evidence', prop + '.json'), 'w') as f:
+            json.dump(ev, f, indent=1)
     for o, k in listed:
         print('KNOWN-FINDING: property=%s %s %s %s [%s] %s' % (prop, o.rule, o.file, o.function, o.construct,
                                                              k.get('what_fails', o.detail)))
